@@ -17,6 +17,16 @@ def opNaming (c : Json) : R Json := do
   let fw ← parseFW (← obj c "fw")
   return Json.mkObj [("list", jstrs (optionList cfg fw)), ("sorted", jstrs (optionStrings cfg fw))]
 
+def sortStrs (l : List Str) : List String :=
+  ((l.map unchars).toArray.qsort (· < ·)).toList
+
+/-- op `naming.many`: {cfg, fws:[fw…]} ↦ {sets: [[sorted distinct option strings]…]} -/
+def opNamingMany (c : Json) : R Json := do
+  let cfg ← parseCfg (← obj c "cfg")
+  let fws ← (← arr c "fws").toList.mapM parseFW
+  let sets := fws.map (fun fw => Json.arr ((sortStrs (dedup (optionList cfg fw))).map Json.str).toArray)
+  return Json.mkObj [("sets", Json.arr sets.toArray)]
+
 def parseOcc (j : Json) : R Occ := do
   match (← str j "k") with
   | "bare" => return .bare
@@ -54,6 +64,6 @@ def opStr2bool (c : Json) : R Json := do
   | none => return Json.mkObj [("o", "err")]
 
 def namingOps : List (String × (Json → R Json)) :=
-  [("naming", opNaming), ("bool.neg", opBoolNeg), ("bool.run", opBoolRun), ("str2bool", opStr2bool)]
+  [("naming", opNaming), ("naming.many", opNamingMany), ("bool.neg", opBoolNeg), ("bool.run", opBoolRun), ("str2bool", opStr2bool)]
 
 end SpVerif.Drive
